@@ -772,6 +772,10 @@ class FileSearcher(SearcherBase):
 
                 self._ensure_worker_processes_killed()
                 log.debug("terminating pool")
+        except concurrent.futures.process.BrokenProcessPool as exc:
+            msg = ("one or more worker processes has died - "
+                   "aborting search")
+            raise FileSearchException(msg) from exc
         finally:
             results_thread.stop()
             info_thread.stop()
